@@ -38,6 +38,7 @@ static struct {
 	int  hs_read; // bytes of the socket's own handshake consumed
 } cn[MAXC];
 static nng_socket sut;
+static nng_listener sfd_l;
 static int        sut_open, is_push;
 static size_t     scale = 1;
 static char       tcp_url[64], ipc_url[128], ipc_path[100];
@@ -302,6 +303,14 @@ main(int argc, char **argv)
 				fprintf(stderr, "driver: ipc listen: %s\n", nng_strerror(rv));
 				return 3;
 			}
+			if ((rv = nng_listener_create(&sfd_l, sut, "socket://")) != 0 || (rv = nng_listener_start(sfd_l, 0)) != 0) {
+				if (lenient) {
+					skip_walk = 1;
+					continue;
+				}
+				fprintf(stderr, "driver: socket:// listen: %s\n", nng_strerror(rv));
+				return 3;
+			}
 			nni_verif_io_max = atol(a4) > 0 ? (size_t) atol(a4) : (size_t) INT32_MAX;
 			continue; // part of the initial state
 		}
@@ -309,7 +318,18 @@ main(int argc, char **argv)
 		if (!strcmp(cmd, "conn")) {
 			int c = atoi(a1), fd, rv, one = 1;
 			cn[c].ipc = !strcmp(a2, "ipc");
-			if (cn[c].ipc) {
+			if (!strcmp(a2, "sfd")) {
+				// socket:// transport: one end of a socketpair is handed to the listener, the driver keeps the other
+				int fds[2];
+				rv = socketpair(AF_UNIX, SOCK_STREAM, 0, fds);
+				fd = fds[0];
+				if (rv == 0 && (rv = nng_listener_set_int(sfd_l, NNG_OPT_SOCKET_FD, fds[1])) != 0) {
+					close(fds[1]);
+					close(fds[0]);
+					errno = ENOMEM;
+					rv    = -1;
+				}
+			} else if (cn[c].ipc) {
 				struct sockaddr_un su;
 				memset(&su, 0, sizeof(su));
 				su.sun_family = AF_UNIX;
